@@ -308,7 +308,7 @@ func run(c *hl.Ctx) error {
 	for _, fixed := range [][3]string{{"", "", ""}, {"/", "/", ""}, {".", "..", ""}, {"a/b/../../..", "x", "y"}, {"/..", "/a", ""}, {"a.svg", "b", "c.d"}, {"out/o.svg", "../x", ""}} {
 		c.Emit(pathCase(fixed[0], fixed[1], fixed[2]))
 	}
-	np := c.Pick(6000, 300000)
+	np := c.Pick(6000, 200000)
 	for i := 0; i < np; i++ {
 		a, b, cc := genPath(r), genPath(r), genPath(r)
 		if r.Intn(4) == 0 { // related paths so that Rel has common prefixes
@@ -321,7 +321,7 @@ func run(c *hl.Ctx) error {
 	}
 	c.Count("path")
 	// (b) CLI on board trees
-	nt := c.Pick(36, 1500)
+	nt := c.Pick(36, 500)
 	type job struct {
 		idx   int
 		src   string
